@@ -22,40 +22,58 @@ SHARDS = {"quick": 8, "thorough": 16}
 BUDGET = {"quick": 25.0, "thorough": 420.0}
 REQUIRE = {
     "quick": {
-        "eval:render_no_raise": 20000,
-        "eval:slice": 20000,
-        "eval:focus_row_visible": 15000,
-        "eval:cursor_row_visible": 3000,
-        "eval:no_blank_above": 15000,
-        "eval:blank_below_only_if_all_shown": 1000,
-        "eval:mouse1_makes_focus": 300,
-        "eval:keypress_no_raise": 5000,
-        "eval:mouse_no_raise": 2000,
-        "cover:window_starts_inside_item": 500,
-        "cover:zero_row_item_in_list": 500,
-        "cover:focus_taller_than_box": 300,
-        "walker:dictv1": 50,
-        "walker:dictv2": 50,
-        "walker:slw": 50,
-        "walker:sflw": 50,
+        "eval:render_no_raise": 10000,
+        "eval:slice": 10000,
+        "eval:focus_row_visible": 8000,
+        "eval:cursor_row_visible": 4000,
+        "eval:no_blank_above": 8000,
+        "eval:blank_below_only_if_all_shown": 2000,
+        "eval:no_spurious_cursor": 5000,
+        "eval:mouse1_makes_focus": 400,
+        "eval:keypress_no_raise": 4000,
+        "eval:mouse_no_raise": 1500,
+        "cover:window_starts_inside_item": 2500,
+        "cover:window_ends_inside_item": 4000,
+        "cover:zero_row_item_in_list": 2000,
+        "cover:focus_taller_than_box": 1500,
+        "cover:render_served_from_cache": 1500,
+        "walker:dictv1": 100,
+        "walker:dictv2": 100,
+        "walker:slw": 100,
+        "walker:sflw": 100,
+        "reach:widget.listbox.ListBox.calculate_visible": 10000,
+        "reach:widget.listbox.ListBox._keypress_page_down": 500,
+        "reach:widget.listbox.ListBox._keypress_page_up": 500,
+        "reach:widget.listbox.ListBox.change_focus": 2000,
+        "reach:widget.listbox.ListBox._set_focus_complete": 2000,
+        "reach:widget.listbox.ListBox._set_focus_valign_complete": 1000
     },
     "thorough": {
-        "eval:render_no_raise": 1000000,
-        "eval:slice": 1000000,
-        "eval:focus_row_visible": 700000,
-        "eval:cursor_row_visible": 150000,
-        "eval:no_blank_above": 700000,
-        "eval:blank_below_only_if_all_shown": 50000,
-        "eval:mouse1_makes_focus": 15000,
-        "eval:keypress_no_raise": 250000,
-        "eval:mouse_no_raise": 100000,
+        "eval:render_no_raise": 100000,
+        "eval:slice": 100000,
+        "eval:focus_row_visible": 80000,
+        "eval:cursor_row_visible": 40000,
+        "eval:no_blank_above": 80000,
+        "eval:blank_below_only_if_all_shown": 20000,
+        "eval:no_spurious_cursor": 50000,
+        "eval:mouse1_makes_focus": 4000,
+        "eval:keypress_no_raise": 40000,
+        "eval:mouse_no_raise": 15000,
         "cover:window_starts_inside_item": 25000,
-        "cover:zero_row_item_in_list": 25000,
+        "cover:window_ends_inside_item": 40000,
+        "cover:zero_row_item_in_list": 20000,
         "cover:focus_taller_than_box": 15000,
-        "walker:dictv1": 2000,
-        "walker:dictv2": 2000,
-        "walker:slw": 2000,
-        "walker:sflw": 2000,
+        "cover:render_served_from_cache": 15000,
+        "walker:dictv1": 1000,
+        "walker:dictv2": 1000,
+        "walker:slw": 1000,
+        "walker:sflw": 1000,
+        "reach:widget.listbox.ListBox.calculate_visible": 100000,
+        "reach:widget.listbox.ListBox._keypress_page_down": 5000,
+        "reach:widget.listbox.ListBox._keypress_page_up": 5000,
+        "reach:widget.listbox.ListBox.change_focus": 20000,
+        "reach:widget.listbox.ListBox._set_focus_complete": 20000,
+        "reach:widget.listbox.ListBox._set_focus_valign_complete": 10000
     },
 }
 RULE = (
@@ -66,7 +84,9 @@ RULE = (
     "box (3..20)x(1..10); ops: keys up/down/page up/page down/home/end/x, mouse press/release buttons 1/4/5 at random "
     "cells, set_focus(pos, coming_from), set_focus_valign(top/middle/bottom/relative pct), resize, walker "
     "insert/delete/replace/clear, ListBox focus flag toggle; a case = the whole JSON recipe; distinct = distinct recipes; "
-    "non-trivial = at least one render was judged"
+    "non-trivial = at least one render was judged; a history stops at its first failure; per shard the first 3 (quick) / 8 "
+    "(thorough) failures of each base signature (clause + kind of mismatch or exception site) are shrunk and classified, "
+    "further ones are only counted (failure:* counters)"
 )
 ASSUMES = [
     "the items' own renderings are trusted: 'vertical concatenation of the items' renderings' is built from item.render((maxcol,), focus) of the real Edit/Pile items (called after ListBox.render) and from the spies' pure row function",
